@@ -285,6 +285,10 @@ fn op_group(op: &Op) -> &'static str {
     }
 }
 
+/// histories that contain CSE arrays: undo / redo are one family each
+fn cse_family(ctx: &str) -> String {
+    if ctx.starts_with("undo") { "undo".into() } else if ctx.starts_with("redo") { "redo".into() } else { ctx_family(ctx) }
+}
 fn why_family(why: &str) -> &'static str {
     match why { "spill-without-anchor" | "spill-outside-extent" => "stale-spill", "extents-overlap" | "extent-off-grid" => "extent-conflict", _ => "extent-not-full" }
 }
@@ -313,22 +317,29 @@ fn scenario(ops: &[Op], show: bool) -> Option<String> {
 fn inp(row: i32, col: i32, t: &str) -> Op { Op::Input { sheet: 0, row, col, text: t.to_string() } }
 fn ar(row: i32, col: i32, w: i32, h: i32) -> AreaS { AreaS { sheet: 0, row, col, w, h } }
 
-fn witnesses() -> Vec<(&'static str, Vec<Op>)> {
+fn witnesses() -> Vec<(&'static str, &'static str, Vec<Op>)> {
+    let af = |row: i32, col: i32, w: i32, h: i32, t: &str| Op::ArrayFormula { sheet: 0, row, col, w, h, text: t.to_string() };
     vec![
-        ("w-hist60", vec![Op::Redo, inp(6, 1, "=C3:D4"), Op::MoveRows { sheet: 0, at: 6, n: 1, delta: 1 }, inp(2, 4, "={1;2;3}"), Op::ClearAll(ar(2, 2, 2, 2)),
+        // undo of a paste that overwrote two dynamic anchors brings back two of their spill cells but not the anchors
+        ("stale-spill:undo-paste", "paste over dynamic anchors, undo", vec![Op::Redo, inp(6, 1, "=C3:D4"), Op::MoveRows { sheet: 0, at: 6, n: 1, delta: 1 }, inp(2, 4, "={1;2;3}"), Op::ClearAll(ar(2, 2, 2, 2)),
             inp(3, 3, "=SEQUENCE(A1)*2"), Op::CopyPaste { src: ar(7, 1, 3, 3), dst_sheet: 0, dst_row: 2, dst_col: 3, cut: false }, Op::Undo]),
-        ("w-paste-undo2", vec![inp(2, 4, "={1;2;3}"), inp(7, 1, "={1,2;3,4}"), Op::CopyPaste { src: ar(7, 1, 3, 3), dst_sheet: 0, dst_row: 2, dst_col: 3, cut: false }, Op::Undo]),
-        ("w-paste-undo3", vec![inp(2, 4, "={1;2;3}"), inp(7, 1, "={1,2;3,4}"), Op::CopyPaste { src: ar(7, 1, 2, 2), dst_sheet: 0, dst_row: 2, dst_col: 4, cut: false }, Op::Undo]),
-        ("w-paste-undo", vec![inp(2, 4, "={1;2;3}"), inp(7, 1, "5"), Op::CopyPaste { src: ar(7, 1, 3, 3), dst_sheet: 0, dst_row: 2, dst_col: 3, cut: false }, Op::Undo]),
-        ("w-cse-entry", vec![inp(5, 4, "=SEQUENCE(3)"), Op::ArrayFormula { sheet: 0, row: 3, col: 3, w: 2, h: 3, text: "=SEQUENCE(2,2)".into() }]),
-        ("w-cse-structural", vec![Op::ArrayFormula { sheet: 0, row: 7, col: 2, w: 2, h: 1, text: "=SEQUENCE(2,2)".into() }, Op::DeleteCols { sheet: 0, at: 1, n: 1 }]),
+        // a failing undo leaves the sheet half restored
+        ("stale-spill:undo-other", "undo that returns Err half way", vec![Op::Redo, Op::MoveRows { sheet: 1, at: 6, n: 1, delta: 1 }, Op::InsertCols { sheet: 0, at: 4, n: 1 }, Op::Undo, inp(5, 5, "=A1:B2"), Op::ClearAll(ar(4, 1, 1, 2)),
+            inp(7, 3, "x"), inp(1, 2, "1"), Op::DeleteRows { sheet: 0, at: 3, n: 2 }, inp(6, 3, "=A1:A3*2"), inp(2, 2, ""), inp(6, 3, "=FILTER(A1:B4,A1:A4>A2)"), inp(5, 2, "2"),
+            inp(3, 3, "=FILTER(A1:B4,A1:A4>A2)"), Op::RangeStyle { area: ar(10, 3, 3, 3), path: "fill.bg_color".into(), value: "#FFFFFF".into() }, inp(3, 4, "=SEQUENCE(A1)"), inp(3, 2, "0"), Op::Undo,
+            Op::CopyPaste { src: ar(4, 4, 3, 2), dst_sheet: 0, dst_row: 3, dst_col: 4, cut: true }, Op::Redo, inp(3, 3, "=SEQUENCE(2,16384)"), Op::Undo, Op::Undo]),
+        // set_user_array_formula writes its placeholders over a dynamic anchor without clearing that anchor's spill cells
+        ("cse-history:entry", "CSE array entered over a dynamic anchor", vec![inp(5, 4, "=SEQUENCE(3)"), af(3, 3, 2, 3, "=SEQUENCE(2,2)")]),
+        // structural edits move a CSE array by re-entering it; the source anchor is removed afterwards — together with the new placeholder
+        ("cse-history:structural", "delete a column left of a CSE array", vec![af(7, 2, 2, 1, "=SEQUENCE(2,2)"), Op::DeleteCols { sheet: 0, at: 1, n: 1 }]),
+        ("cse-history:undo", "insert a column left of a CSE array, undo", vec![af(7, 2, 2, 1, "=SEQUENCE(2,2)"), Op::InsertCols { sheet: 0, at: 1, n: 1 }, Op::Undo]),
     ]
 }
 
 fn main() {
     let a = Args::parse();
     if a.extra.first().map(|x| x == "probe").unwrap_or(false) {
-        for (name, ops) in witnesses() { println!("{name}"); let r = scenario(&ops, true); println!("  => {r:?}"); }
+        for (name, what, ops) in witnesses() { println!("{name} ({what})"); let r = scenario(&ops, a.extra.len() > 1); println!("  => {r:?}"); }
         return;
     }
     let mut cs = Cases::new(&a.out, "c31");
@@ -336,6 +347,13 @@ fn main() {
     // (A)
     let (tst, mut samples) = run_tie(&mut cs, a.thorough, a.seed);
     let tie_cases = cs.n;
+    // the witnesses of the known findings, replayed on every run
+    for (class, what, ops) in witnesses() {
+        or.checked += 1;
+        if let Some(why) = scenario(&ops, false) {
+            or.fail(class, json!({"witness": what, "history": ops_json(&ops)}), format!("{what}: {why}"));
+        }
+    }
     // (B)
     let mut rng = Rng::new(a.seed ^ 0xC31);
     let (nh, maxl) = if a.thorough { (1500u64, 40i64) } else { (150u64, 30i64) };
@@ -386,7 +404,7 @@ fn main() {
                 if cells.iter().any(|x| kind_letter(Some(x.2)) == 'S') { with_spill += 1; }
                 if cells.iter().any(|x| matches!(x.2, Cell::ArrayFormula { v: FormulaValue::Error { ei: Error::SPILL, .. }, .. })) { blocked_states += 1; }
                 if !e || !f {
-                    let class = if allow_cse { format!("cse-history:{}", ctx_family(&ctx)) } else { format!("{}:{}", why_family(&why), ctx_family(&ctx)) };
+                    let class = if allow_cse { format!("cse-history:{}", cse_family(&ctx)) } else { format!("{}:{}", why_family(&why), ctx_family(&ctx)) };
                     or.fail(&class, json!({"history": ops_json(&ops_done), "sheet": si, "state": sheet_wire(ws, true)}), format!("after {ctx} and evaluate: {why} on sheet {si}"));
                     break 'hist; // the broken state would echo through the rest of the history
                 }
@@ -397,7 +415,7 @@ fn main() {
                 if ncells <= 400 { continue; }
                 let (e, _f, why) = spill_bits(ws);
                 or.checked += 1;
-                let class = if allow_cse { format!("cse-history:{}", ctx_family(&ctx)) } else { format!("{}:{}", why_family(&why), ctx_family(&ctx)) };
+                let class = if allow_cse { format!("cse-history:{}", cse_family(&ctx)) } else { format!("{}:{}", why_family(&why), ctx_family(&ctx)) };
                 if !e { or.fail(&class, json!({"history": ops_json(&ops_done), "sheet": si}), format!("after {ctx} and evaluate: {why} on sheet {si} (large sheet)")); break 'hist; }
             }
             // a typed input changes no other user content of its sheet
